@@ -1,4 +1,4 @@
-//@unit name=wal props=C17,C01
+//@unit name=wal props=C17,C01,C02
 //@strip-pub
 //@rlimit 40
 // Unit `wal`: the write-ahead log as an append-only sequence (DESIGN Appendix A.2).
